@@ -270,10 +270,12 @@ func (r *Reliable) send() {
 				r.sender.senderWindow.state = FastRecovery // will switch to AIMD on the next successful ack
 			}
 
-			if r.sender.RTO > maxRTO && len(r.sender.frames) > 0 {
-				logrus.Errorf("REL: RTO exeeded, dropping frame n° %v", r.sender.frames[0].frameNo)
-				r.sender.frames = r.sender.frames[1:]
-				r.sender.RTO = r.sender.RTT
+			// Cap the back-off. The unacknowledged frames stay where they are:
+			// dropping frames[0] here (without the peer ever acknowledging it)
+			// left a hole in the stream that no later retransmission could
+			// fill, so the tube could never complete after a long outage.
+			if r.sender.RTO > maxRTO {
+				r.sender.RTO = maxRTO
 			}
 
 			r.sender.resetRetransmitTicker()
